@@ -48,7 +48,7 @@ type scRebal struct {
 }
 
 func init() {
-	for _, p := range []string{"C11", "C04r", "C13r", "C16r"} {
+	for _, p := range []string{"C11", "C04r", "C13r", "C16r", "C12r"} {
 		p := p
 		scenarios[p] = func() Scenario { return &scRebal{prop: p} }
 	}
@@ -86,6 +86,13 @@ func (s *scRebal) Configure(w *World) {
 		c.RMInterval = 303 * time.Millisecond
 		c.W.Persist = 5
 		c.Extra["rm"] = "1"
+	}
+	if s.prop == "C12r" {
+		// finite mode across a rebalance: the session opened by the rebalance runs to its end seqnos
+		c.DcpMode = "finite"
+		c.W.Publish, c.W.Emit = 8, 6
+		c.W.ExtWrite = 1
+		c.ConsumerMode = "immediate"
 	}
 	switch s.prop {
 	case "C04r":
